@@ -48,7 +48,7 @@ Inductive append_effect (F : flavour) (pinv : Z -> Z -> fl_state F -> Prop) (p :
     ps_closed (fl_pub F p') = false ->
     pinv n (off + req) p' ->
     append_effect F pinv p n off laid (p', Ok (n * l_tlen (plog p) + off + req))
-| AE_trip p' req : 0 < req <= l_tlen (plog p) / 2 ->
+| AE_trip p' req : 0 < req <= l_tlen (plog p) / 2 -> n < two31 - 1 ->
     ps_closed (fl_pub F p) = false -> n * l_tlen (plog p) + off < l_limit (plog p) -> l_tlen (plog p) < off + req ->
     same_geom (plog p) (plog p') -> l_limit (plog p') = l_limit (plog p) ->
     part (plog p') (n mod 3) =
@@ -59,7 +59,21 @@ Inductive append_effect (F : flavour) (pinv : Z -> Z -> fl_state F -> Prop) (p :
     ps_claim (fl_pub F p') = ps_claim (fl_pub F p) ->
     ps_closed (fl_pub F p') = false ->
     pinv (n + 1) 0 p' ->
-    append_effect F pinv p n off laid (p', Err AdminAction).
+    append_effect F pinv p n off laid (p', Err AdminAction)
+(* the very last term: the message does not fit, the term is closed with padding (none if it was full), no rotation;
+   the publication is at the end of the position space from now on *)
+| AE_last p' req : 0 < req <= l_tlen (plog p) / 2 -> two31 - 1 <= n ->
+    ps_closed (fl_pub F p) = false -> n * l_tlen (plog p) + off < l_limit (plog p) -> l_tlen (plog p) < off + req ->
+    same_geom (plog p) (plog p') -> l_limit (plog p') = l_limit (plog p) ->
+    part (plog p') (n mod 3) =
+      (if off <? l_tlen (plog p)
+       then term_put (part (plog p) (n mod 3)) off (padding_entries (plog p) off (wrap32 (l_init (plog p) + n)))
+       else part (plog p) (n mod 3)) ->
+    (forall j, 0 <= j < 3 -> j <> n mod 3 -> part (plog p') j = part (plog p) j) ->
+    ps_claim (fl_pub F p') = ps_claim (fl_pub F p) ->
+    ps_closed (fl_pub F p') = false ->
+    pinv n (l_tlen (plog p)) p' ->
+    append_effect F pinv p n off laid (p', Err MaxPositionExceeded).
 
 Definition offer_laid (l : log) (msg : list Z) (req : Z) (es : list entry) (cl : option (Z * Z * Z)) : Prop :=
   cl = None /\ exists fs, es = map Committed fs /\ offer_frames_spec l (max_payload_length l) msg req fs.
@@ -80,10 +94,10 @@ Record flavour_ok (F : flavour) (pinv : Z -> Z -> fl_state F -> Prop) : Prop := 
   fk_clean : forall n off p i, pinv n off p ->
       fl_pub F (fl_with_pub F p (with_log (fl_pub F p) (set_part (plog p) i []))) = with_log (fl_pub F p) (set_part (plog p) i []) /\
       pinv n off (fl_with_pub F p (with_log (fl_pub F p) (set_part (plog p) i [])));
-  fk_offer : forall m rv n off p msg, pinv n off p -> n < two31 - 1 -> off <= l_tlen (plog p) ->
+  fk_offer : forall m rv n off p msg, pinv n off p -> off <= l_tlen (plog p) ->
       zlen msg <= 1073741824 -> l_mtu (plog p) mod 32 = 0 ->
       append_effect F pinv p n off (offer_laid (plog p) msg) (fl_step F m rv p (Offer msg));
-  fk_claim : forall m rv n off p len, pinv n off p -> n < two31 - 1 -> off <= l_tlen (plog p) ->
+  fk_claim : forall m rv n off p len, pinv n off p -> off <= l_tlen (plog p) ->
       0 <= len <= 1073741824 ->
       append_effect F pinv p n off (claim_laid (plog p) n off len) (fl_step F m rv p (Claim len))
 }.
@@ -185,17 +199,16 @@ Proof. intros. repeat split; assumption. Qed.
 Lemma step_meta s sp o :
   sys_rep F pinv s sp -> C04Proofs.op_ok (sys_log s) (pub_op (fl_pub F (sy_pub s)) o) ->
   match o with SSetLimit v => v <= im_pos (sy_img s) + tlen | SSetConnected _ | SClose => True | _ => False end ->
-  sys_rep F pinv (fst (sys_step F m rv s o)) (spec_step g sp (event_of (fl_pub F (sy_pub s)) o (snd (sys_step F m rv s o)))).
+  sys_rep F pinv (fst (sys_step F m rv s o)) (spec_step g sp (step_event F m rv s o)).
 Proof. intros [n off Fr pend k j D Hp Hg Hlr Hcr Hh Hlim Hwin Hcl] Hok Ho.
   assert (Hna : is_append (pub_op (fl_pub F (sy_pub s)) o) = false) by (destruct o; try contradiction; reflexivity).
   destruct (fk_env F pinv FK m rv n off (sy_pub s) _ Hp Hna Hok) as (E1 & E2 & E3).
   assert (Hst : sys_step F m rv s o = (mkSys (fst (fl_step F m rv (sy_pub s) (pub_op (fl_pub F (sy_pub s)) o))) (sy_img s) (sy_asm s) (sy_open s),
                                         (snd (fl_step F m rv (sy_pub s) (pub_op (fl_pub F (sy_pub s)) o)), [], []))).
   { destruct o; try contradiction; cbn [sys_step]; destruct (fl_step F m rv (sy_pub s) _); reflexivity. }
-  rewrite Hst. cbn [fst snd].
-  assert (Hev : spec_step g sp (event_of (fl_pub F (sy_pub s)) o (snd (fl_step F m rv (sy_pub s) (pub_op (fl_pub F (sy_pub s)) o)), [], [])) = sp).
-  { destruct o; try contradiction; reflexivity. }
-  rewrite Hev.
+  assert (Hev : spec_step g sp (step_event F m rv s o) = sp).
+  { unfold step_event. destruct (snd (sys_step F m rv s o)) as [[r0 ds0] ms0]. destruct o; try contradiction; reflexivity. }
+  rewrite Hev. rewrite Hst. cbn [fst snd].
   set (p' := fst (fl_step F m rv (sy_pub s) (pub_op (fl_pub F (sy_pub s)) o))) in *.
   assert (Hlog : exists l', ps_log (fl_pub F p') = l' /\ same_view (sys_log s) l' /\ same_geom (sys_log s) l' /\
                    l' = (match o with SSetLimit v => set_limit (sys_log s) v | SSetConnected b => set_connected (sys_log s) b | _ => sys_log s end) /\
@@ -217,12 +230,12 @@ Proof. intros [n off Fr pend k j D Hp Hg Hlr Hcr Hh Hlim Hwin Hcl] Hok Ho.
 Lemma step_clean s sp i :
   sys_rep F pinv s sp -> env_ok F m s (SClean i) = true ->
   sys_rep F pinv (fst (sys_step F m rv s (SClean i)))
-          (spec_step g sp (event_of (fl_pub F (sy_pub s)) (SClean i) (snd (sys_step F m rv s (SClean i))))).
+          (spec_step g sp (step_event F m rv s (SClean i))).
 Proof. intros [n off Fr pend k j D Hp Hg Hlr Hcr Hh Hlim Hwin Hcl] Henv.
   destruct (cursor_norm _ _ _ _ _ _ _ _ _ _ Hlr Hcr) as (k' & j' & Hk' & Hlr' & Hcr' & Hrest & Hnorm).
   pose proof (tlen_facts _ Hg) as (T1 & T32 & _). pose proof Hg as (Hleg & Ht & Hm & Hs).
   destruct (fk_basic F pinv FK n off _ Hp) as (_ & Hn & Hcount & Hoff).
-  cbn [sys_step fst snd event_of spec_step].
+  unfold step_event. cbn [sys_step fst snd event_of spec_step].
   destruct (fk_clean F pinv FK n off (sy_pub s) i Hp) as (E1 & E2).
   unfold env_ok in Henv. fold (sys_log s) in *. unfold plog in *. fold (sys_log s) in *.
   rewrite Hcount, Ht in Henv.
@@ -252,16 +265,16 @@ Proof. intros [n off Fr pend k j D Hp Hg Hlr Hcr Hh Hlim Hwin Hcl] Henv.
 
 (* ---- Image::poll through the assembler ---- *)
 Lemma step_poll s sp limit :
-  sys_rep F pinv s sp -> l_count (sys_log s) < two31 - 1 ->
+  sys_rep F pinv s sp ->
   sys_rep F pinv (fst (sys_step F m rv s (SPoll limit)))
-          (spec_step g sp (event_of (fl_pub F (sy_pub s)) (SPoll limit) (snd (sys_step F m rv s (SPoll limit))))).
-Proof. intros [n off Fr pend k j D Hp Hg Hlr Hcr Hh Hlim Hwin Hcl] Hlast.
+          (spec_step g sp (step_event F m rv s (SPoll limit))).
+Proof. intros [n off Fr pend k j D Hp Hg Hlr Hcr Hh Hlim Hwin Hcl].
   destruct (cursor_norm _ _ _ _ _ _ _ _ _ _ Hlr Hcr) as (k' & j' & Hk' & Hlr' & Hcr' & Hrest & Hnorm).
   pose proof (tlen_facts _ Hg) as (T1 & T32 & _). pose proof Hg as (Hleg & Ht & Hm & Hs).
   destruct (fk_basic F pinv FK n off _ Hp) as (_ & Hn & Hcount & Hoff).
-  unfold plog in Hcount. fold (sys_log s) in Hcount. rewrite Hcount in Hlast.
-  destruct (poll_spec n0 off0 Hn0 Hoff0 _ _ _ _ _ _ _ _ limit Hlr' Hcr' Hlast Hnorm) as (j2 & ws & im' & Hpoll & Hj2 & Hcr2 & Hses & _).
-  cbv zeta in Hpoll. cbn [sys_step]. rewrite Hpoll.
+  unfold plog in Hcount. fold (sys_log s) in Hcount.
+  destruct (poll_spec n0 off0 Hn0 Hoff0 _ _ _ _ _ _ _ _ limit Hlr' Hcr' Hnorm) as (j2 & ws & im' & Hpoll & Hj2 & Hcr2 & Hses & _).
+  cbv zeta in Hpoll. unfold step_event. cbn [sys_step]. rewrite Hpoll.
   destruct (assemble (sy_asm s) (map frag_of_dlv (data_of (place (boff n0 off0 Fr k' j') (firstn (j2 - j') (skipn j' (Fr k'))))))) as [bs' ms] eqn:Easm.
   cbn [fst snd event_of spec_step].
   pose proof (hist_rest g ses Fr pend n off k j k' j' (sy_asm s) sp D Hrest Hh) as Hh'.
@@ -275,18 +288,18 @@ Proof. intros [n off Fr pend k j D Hp Hg Hlr Hcr Hh Hlim Hwin Hcl] Hlast.
 
 (* when a poll with a positive fragment limit leaves the position where it was, nothing is left to read *)
 Lemma poll_drained s sp limit :
-  sys_rep F pinv s sp -> l_count (sys_log s) < two31 - 1 -> 0 < limit ->
+  sys_rep F pinv s sp -> 0 < limit ->
   im_pos (sy_img (fst (sys_step F m rv s (SPoll limit)))) = im_pos (sy_img s) ->
   sy_open s = false ->
   sp_del sp = map fst (sp_acc sp) /\
   fl_position F m (sy_pub s) = (if ps_closed (fl_pub F (sy_pub s)) then Err Closed else Ok (im_pos (sy_img s))) /\
   im_pos (sy_img s) = pos_after (sg_p0 g) (sp_stream sp).
-Proof. intros [n off Fr pend k j D Hp Hg Hlr Hcr Hh Hlim Hwin Hcl] Hlast Hlimit Hsame Hopen.
+Proof. intros [n off Fr pend k j D Hp Hg Hlr Hcr Hh Hlim Hwin Hcl] Hlimit Hsame Hopen.
   destruct (cursor_norm _ _ _ _ _ _ _ _ _ _ Hlr Hcr) as (k' & j' & Hk' & Hlr' & Hcr' & Hrest & Hnorm).
   pose proof (tlen_facts _ Hg) as (T1 & T32 & Tmp & _ & _ & Tg & Tm). pose proof Hg as (Hleg & Ht & Hm & Hs).
   destruct (fk_basic F pinv FK n off _ Hp) as (_ & Hn & Hcount & Hoff).
-  unfold plog in Hcount. fold (sys_log s) in Hcount. rewrite Hcount in Hlast.
-  destruct (poll_spec n0 off0 Hn0 Hoff0 _ _ _ _ _ _ _ _ limit Hlr' Hcr' Hlast Hnorm) as (j2 & ws & im' & Hpoll & Hj2 & Hcr2 & Hses & Hdr).
+  unfold plog in Hcount. fold (sys_log s) in Hcount.
+  destruct (poll_spec n0 off0 Hn0 Hoff0 _ _ _ _ _ _ _ _ limit Hlr' Hcr' Hnorm) as (j2 & ws & im' & Hpoll & Hj2 & Hcr2 & Hses & Hdr).
   cbv zeta in Hpoll. cbn [sys_step] in Hsame. rewrite Hpoll in Hsame.
   destruct (assemble (sy_asm s) _) as [bs' ms] in Hsame. cbn [fst sy_img] in Hsame.
   destruct (Hdr Hlimit Hsame) as [-> Hsk].
@@ -333,7 +346,7 @@ Proof. intros [n off Fr pend k j D Hp Hg Hlr Hcr Hh Hlim Hwin Hcl]. destruct Hh 
 (* ---- commit / abort of the open claim ---- *)
 Lemma step_resolve s sp o :
   sys_rep F pinv s sp -> sy_open s = true -> match o with SCommit _ | SAbort => True | _ => False end ->
-  sys_rep F pinv (fst (sys_step F m rv s o)) (spec_step g sp (event_of (fl_pub F (sy_pub s)) o (snd (sys_step F m rv s o)))).
+  sys_rep F pinv (fst (sys_step F m rv s o)) (spec_step g sp (step_event F m rv s o)).
 Proof. intros [n off Fr pend k j D Hp Hg Hlr Hcr Hh Hlim Hwin Hcl] Hopen Ho.
   pose proof (tlen_facts _ Hg) as (T1 & T32 & Tmp & _ & Tmpl & Tg & Tm). pose proof Hg as (Hleg & Ht & Hm & Hs).
   destruct (fk_basic F pinv FK n off _ Hp) as (_ & Hn & Hcount & Hoff).
@@ -344,7 +357,7 @@ Proof. intros [n off Fr pend k j D Hp Hg Hlr Hcr Hh Hlim Hwin Hcl] Hopen Ho.
   assert (Hst : sys_step F m rv s o = (mkSys (fst (fl_step F m rv (sy_pub s) (pub_op (fl_pub F (sy_pub s)) o))) (sy_img s) (sy_asm s) false,
                                         (snd (fl_step F m rv (sy_pub s) (pub_op (fl_pub F (sy_pub s)) o)), [], []))).
   { destruct o; try contradiction; cbn [sys_step]; destruct (fl_step F m rv (sy_pub s) _); reflexivity. }
-  rewrite Hst. cbn [fst snd].
+  unfold step_event. rewrite Hst. cbn [fst snd].
   set (p' := fst (fl_step F m rv (sy_pub s) (pub_op (fl_pub F (sy_pub s)) o))) in *.
   set (l := sys_log s) in *.
   pose proof (lr_klo _ _ _ _ _ _ _ _ Hlr) as [Hk1 Hk2].
@@ -412,6 +425,23 @@ Proof. intros [n off Fr pend k j D Hp Hg Hlr Hcr Hh Hlim Hwin Hcl] Hopen Ho.
     + reflexivity. Qed.
 
 (* ---- offers and claims ---- *)
+Lemma rep_open_iff s sp : sys_rep F pinv s sp -> (sy_open s = false <-> sp_open sp = None).
+Proof. intros [n off Fr pend k j D Hp Hg Hlr Hcr Hh Hlim Hwin Hcl]. destruct Hh as [_ _ _ _ O _ _ _ _].
+  unfold claim_ok in Hcl. destruct pend as [f|], (sp_open sp) as [[len p]|]; try contradiction.
+  - destruct Hcl as [Ho _]. split; intros H; congruence.
+  - split; auto. Qed.
+
+
+Lemma rep_pubpos s sp : sys_rep F pinv s sp -> sp_open sp = None ->
+  fl_position F m (sy_pub s) = if ps_closed (fl_pub F (sy_pub s)) then Err Closed else Ok (pos_after (sg_p0 g) (sp_stream sp)).
+Proof. intros [n off Fr pend k j D Hp Hg Hlr Hcr Hh Hlim Hwin Hcl] Hopen.
+  pose proof (tlen_facts _ Hg) as (T1 & T32 & Tmp & _ & Tmpl & Tg & Tm). pose proof Hg as (Hleg & Ht & Hm & Hs).
+  destruct Hh as [_ _ _ E O _ _ _ _]. rewrite Hopen in O. destruct pend as [f|]; [contradiction|].
+  cbn [pend_span] in E. rewrite Z.add_0_r, Tg in E.
+  rewrite (fk_position F pinv FK m n off _ Hp) by (unfold plog; fold (sys_log s); apply (lr_off _ _ _ _ _ _ _ _ Hlr)).
+  unfold plog. fold (sys_log s). rewrite Ht, E. reflexivity. Qed.
+
+
 Lemma next_index_eq l n : l_count l = n -> 0 <= n < two31 -> next_index l = (n + 1) mod 3.
 Proof. intros Hc Hn. unfold next_index. rewrite Hc, index_by_term_count_nonneg by assumption. apply Zplus_mod_idemp_l. Qed.
 
@@ -474,32 +504,104 @@ Proof. intros Hp' Hg Hlr Hcr Hh Hlim Hop Hn Hlast Hreq Hlt Hfit Hsg Hl' Hpart Ho
   - lia.
   - exact Hop. Qed.
 
-Lemma on_result_refuse sp e acc : refusal e = true -> on_result g sp (Err e) acc = sp.
-Proof. intros H. destruct e; try reflexivity. discriminate. Qed.
+Lemma on_result_refuse sp e q acc : refusal e = true ->
+  (e = MaxPositionExceeded -> pad_to_reported g (sp_stream sp) q = []) -> on_result g sp (Err e) q acc = sp.
+Proof. intros H Hq. destruct e; try reflexivity; try discriminate. cbn [on_result]. rewrite (Hq eq_refl), app_nil_r.
+  destruct sp; reflexivity. Qed.
+
+(* position() of an unchanged publication with no claim open reports the end of the stream: nothing to pad *)
+Lemma pad_reported_same s sp : sys_rep F pinv s sp -> sp_open sp = None ->
+  pad_to_reported g (sp_stream sp) (fl_position F m (sy_pub s)) = [].
+Proof. intros Hrep Hopen. rewrite (rep_pubpos s sp Hrep Hopen). unfold pad_to_reported.
+  destruct (ps_closed _); [reflexivity|]. rewrite Z.ltb_irrefl. reflexivity. Qed.
+
+(* the very last term: the message does not fit, padding to the end of the term, no rotation *)
+Lemma rep_last (p : fl_state F) im asm op sp (p' : fl_state F) n off Fr k j D req :
+  pinv n (l_tlen (plog p)) p' -> geom_ok (plog p) ->
+  log_rep n0 off0 (plog p) n off Fr None k -> cursor_rep n0 off0 (plog p) Fr im k j ->
+  hist_rep g ses Fr None n off k j asm sp D ->
+  l_limit (plog p) <= im_pos im + tlen -> n * tlen < im_pos im + 2 * tlen -> op = false -> 0 <= n ->
+  0 < req <= l_tlen (plog p) / 2 -> l_tlen (plog p) < off + req ->
+  same_geom (plog p) (plog p') -> l_limit (plog p') = l_limit (plog p) ->
+  part (plog p') (n mod 3) =
+    (if off <? l_tlen (plog p)
+     then term_put (part (plog p) (n mod 3)) off (padding_entries (plog p) off (wrap32 (l_init (plog p) + n)))
+     else part (plog p) (n mod 3)) ->
+  (forall x, 0 <= x < 3 -> x <> n mod 3 -> part (plog p') x = part (plog p) x) ->
+  part (plog p) ((n + 1) mod 3) = [] -> ps_closed (fl_pub F p') = false ->
+  sys_rep F pinv (mkSys p' im asm op)
+          (mkSpec (sp_stream sp ++ pad_to_reported g (sp_stream sp) (fl_position F m p')) (sp_open sp) (sp_acc sp) (sp_del sp) (sp_ok sp)).
+Proof. intros Hp' Hg Hlr Hcr Hh Hlim Hwin Hop Hn Hreq Hfit Hsg Hl' Hpart Hoth Hnext Hcl'.
+  pose proof (tlen_facts _ Hg) as (T1 & T32 & Tmp & _ & Tmpl & Tg & Tm). pose proof Hg as (Hleg & Ht & Hm & Hs).
+  pose proof Hsg as (G1 & G2 & G3 & G4 & G5).
+  pose proof (lr_klo _ _ _ _ _ _ _ _ Hlr) as [Hk1 Hk2]. pose proof (lr_empty _ _ _ _ _ _ _ _ Hlr) as Hemp.
+  pose proof (cr_j _ _ _ _ _ _ _ Hcr) as Hj. pose proof (lr_off _ _ _ _ _ _ _ _ Hlr) as Hoff.
+  pose proof (off_al n0 off0 Hoff0al _ _ _ _ _ Hlr) as Hoal.
+  assert (Hend : pos_after (sg_p0 g) (sp_stream sp) = n * tlen + off).
+  { destruct Hh as [_ _ _ E _ _ _ _ _]. cbn [pend_span] in E. rewrite Tg in E. lia. }
+  assert (Hpos' : fl_position F m p' = Ok (n * tlen + tlen)).
+  { rewrite (fk_position F pinv FK m n (l_tlen (plog p)) p' Hp') by (rewrite G2; lia). rewrite Hcl', <- G2, Ht. reflexivity. }
+  rewrite Hpos'. unfold pad_to_reported. rewrite Hend. rewrite Ht in *.
+  assert (He2 : forall x, n < x -> Fr x = []) by (intros x Hx; apply Hemp; lia).
+  destruct (off <? tlen) eqn:Eo.
+  - (* padding *)
+    assert (El : (n * tlen + off <? n * tlen + tlen) = true) by lia. rewrite El.
+    pose proof (padding_facts (plog p) off (wrap32 (l_init (plog p) + n)) Hg ltac:(pose proof (start_nn n0 off0 Hoff0 n); pose proof (lr_tail _ _ _ _ _ _ _ _ Hlr); pose proof (span_sum_nonneg _ (frames_pos_F _ _ _ _ _ _ _ _ n Hlr)); cbn [pend_span] in *; lia) Hoal) as Hpf.
+    rewrite Ht, Eo in Hpf. destruct Hpf as (q & Hq1 & Hq2 & Hq3 & Hq4). rewrite Hq1 in Hpart.
+    replace (n * tlen + tlen - (n * tlen + off)) with (tlen - off) by ring.
+    assert (Hofft : off + (tlen - off) = tlen) by ring.
+    apply (SysRep F pinv _ _ n tlen (upd Fr n (Fr n ++ [q])) None k j D); cbn [sy_pub sy_img sy_asm sy_open]; rewrite ?sys_log_mk; fold (plog p').
+    + exact Hp'.
+    + eapply geom_ok_same; eassumption.
+    + rewrite <- Hofft at 1.
+      apply (log_rep_append n0 off0 Hoff0 (plog p) (plog p') n off Fr k [q] (tlen - off) Hlr); try congruence; try lia.
+      * exact Hoth.
+      * rewrite Hs. constructor; [exact Hq2|constructor].
+      * cbn [span_sum]. lia.
+    + apply cursor_rep_upd; [lia|]. eapply cursor_rep_view; [|exact Hcr]. congruence.
+    + rewrite <- Hofft at 1. apply (hist_pad g ses Fr n off k j asm sp D [q] (tlen - off) Hh); try assumption; try lia.
+      cbn [items_of map]. unfold item_of. rewrite Hq3. reflexivity.
+    + rewrite Hl'. exact Hlim.
+    + exact Hwin.
+    + exact Hop.
+  - (* the term was exactly full: nothing is written *)
+    assert (Hot : off = tlen) by lia. subst off.
+    rewrite Z.ltb_irrefl, app_nil_r.
+    apply (SysRep F pinv _ _ n tlen Fr None k j D); cbn [sy_pub sy_img sy_asm sy_open]; rewrite ?sys_log_mk; fold (plog p').
+    + exact Hp'.
+    + eapply geom_ok_same; eassumption.
+    + eapply log_rep_view; [|exact Hlr]. split; [congruence|]. split; [congruence|].
+      intros x Hx. destruct (Z.eq_dec x (n mod 3)) as [-> | Hne]; [exact Hpart|apply Hoth; assumption].
+    + eapply cursor_rep_view; [|exact Hcr]. congruence.
+    + destruct Hh as [A B C E O M I L K]. constructor; assumption.
+    + rewrite Hl'. exact Hlim.
+    + exact Hwin.
+    + exact Hop. Qed.
 
 Lemma step_offer s sp kk len :
   sys_rep F pinv s sp -> env_ok F m s (SOffer kk len) = true ->
   sys_rep F pinv (fst (sys_step F m rv s (SOffer kk len)))
-          (spec_step g sp (event_of (fl_pub F (sy_pub s)) (SOffer kk len) (snd (sys_step F m rv s (SOffer kk len))))).
-Proof. intros [n off Fr pend k j D Hp Hg Hlr Hcr Hh Hlim Hwin Hcl] Henv.
+          (spec_step g sp (step_event F m rv s (SOffer kk len))).
+Proof. intros Hrep0 Henv. pose proof Hrep0 as [n off Fr pend k j D Hp Hg Hlr Hcr Hh Hlim Hwin Hcl].
   pose proof (tlen_facts _ Hg) as (T1 & T32 & Tmp & _ & Tmpl & Tg & Tm). pose proof Hg as (Hleg & Ht & Hm & Hs).
   destruct (fk_basic F pinv FK n off _ Hp) as (_ & Hn & Hcount & Hoff).
   pose proof (lr_off _ _ _ _ _ _ _ _ Hlr) as Hofft.
-  unfold env_ok in Henv. apply andb_prop in Henv as [Hlast Hok]. unfold plog in Hcount. fold (sys_log s) in Hcount.
-  rewrite Hcount in Hlast.
+  unfold env_ok in Henv. pose proof Henv as Hok. unfold plog in Hcount. fold (sys_log s) in Hcount.
   assert (Hlens : 0 <= len <= 1073741824 /\ sy_open s = false) by (unfold append_ok in Hok; lia).
   destruct Hlens as [Hlen Hopen].
   assert (Hpend : pend = None). { unfold claim_ok in Hcl. destruct pend; [|reflexivity]. destruct Hcl as [Ho _]. congruence. }
   subst pend.
-  pose proof (fk_offer F pinv FK m rv n off (sy_pub s) (payload kk len) Hp ltac:(lia) Hofft) as Heff.
+  assert (Hnopen : sp_open sp = None) by (apply (rep_open_iff s sp Hrep0); exact Hopen).
+  pose proof (pad_reported_same s sp Hrep0 Hnopen) as Hpadsame.
+  pose proof (fk_offer F pinv FK m rv n off (sy_pub s) (payload kk len) Hp Hofft) as Heff.
   rewrite (zlen_payload kk len) in Heff by lia. specialize (Heff ltac:(lia)). unfold plog in Heff at 1. fold (sys_log s) in Heff.
   rewrite Hm in Heff. specialize (Heff Hmtu32).
   destruct s as [p im asm op]. cbn [sy_pub sy_img sy_asm sy_open] in *. rewrite sys_log_mk in *. fold (plog p) in *.
-  cbn [sys_step pub_op sy_pub sy_img sy_asm sy_open]. destruct (fl_step F m rv p (Offer (payload kk len))) as [p' r] eqn:Est.
-  cbn [fst snd event_of spec_step].
-  clear Hcount. inversion Heff as [e Hne | p2 req es cl Hlaid Hreq Hclosed Hlt Hfit Hsg Hl' Hpart Hoth Hclm Hcl2 Hp' | p2 req Hreq Hclosed Hlt Hfit Hsg Hl' Hpart Hoth Hclm Hcl2 Hp']; subst.
+  unfold step_event. cbn [sys_step pub_op sy_pub sy_img sy_asm sy_open]. destruct (fl_step F m rv p (Offer (payload kk len))) as [p' r] eqn:Est.
+  cbn [fst snd event_of spec_step sy_pub].
+  clear Hcount. clear Hrep0. inversion Heff as [e Hne | p2 req es cl Hlaid Hreq Hclosed Hlt Hfit Hsg Hl' Hpart Hoth Hclm Hcl2 Hp' | p2 req Hreq Hlast Hclosed Hlt Hfit Hsg Hl' Hpart Hoth Hclm Hcl2 Hp' | p2 req Hreq Hlast Hclosed Hlt Hfit Hsg Hl' Hpart Hoth Hclm Hcl2 Hp']; subst.
   - (* refused *)
-    rewrite on_result_refuse by assumption.
+    rewrite on_result_refuse by (try assumption; intros _; exact Hpadsame).
     apply (SysRep F pinv _ sp n off Fr None k j D); cbn [sy_pub sy_img sy_asm sy_open]; rewrite ?sys_log_mk; auto.
   - (* accepted *)
     destruct Hlaid as (-> & fs & -> & Hfok & Hfsp & Hfit2).
@@ -520,7 +622,7 @@ Proof. intros [n off Fr pend k j D Hp Hg Hlr Hcr Hh Hlim Hwin Hcl] Henv.
       assert (Hp32 : (n * sg_tlen g + off) mod 32 = 0).
       { rewrite Tg. rewrite Z.add_mod, (mul_mod32 n T32), (off_al n0 off0 Hoff0al _ _ _ _ _ Hlr) by lia. reflexivity. }
       assert (Hit : items_of fs = msg_items (sg_mpl g) (payload kk len)) by (rewrite Tm, <- Tmpl; exact Hfit2).
-      pose proof (hist_offer g ses Fr n off k j asm sp D (payload kk len) fs req Hh ltac:(lia) He2 Hj Hfok2 Hfsp Hreq Hr32 Hp32 Hit) as HH.
+      pose proof (hist_offer g ses Fr n off k j asm sp D (payload kk len) fs req (fl_position F m p') Hh ltac:(lia) He2 Hj Hfok2 Hfsp Hreq Hr32 Hp32 Hit) as HH.
       rewrite Tg in HH. rewrite Ht. exact HH.
     + rewrite Hl'. exact Hlim.
     + exact Hwin.
@@ -529,29 +631,35 @@ Proof. intros [n off Fr pend k j D Hp Hg Hlr Hcr Hh Hlim Hwin Hcl] Henv.
     cbn [on_result].
     assert (Hnext : part (plog p) ((n + 1) mod 3) = []).
     { apply (next_clean (mkSys (F := F) p im asm false) n off len Hp Hofft Hok Hclosed Hlt). }
-    apply (rep_trip p im asm false sp p' n off Fr k j D req); auto; lia. Qed.
+    apply (rep_trip p im asm false sp p' n off Fr k j D req); auto; lia.
+  - (* the very last term *)
+    cbn [on_result is_ok].
+    assert (Hnext : part (plog p) ((n + 1) mod 3) = []).
+    { apply (next_clean (mkSys (F := F) p im asm false) n off len Hp Hofft Hok Hclosed Hlt). }
+    apply (rep_last p im asm false sp p' n off Fr k j D req); auto; lia. Qed.
 
 Lemma step_claim s sp len :
   sys_rep F pinv s sp -> env_ok F m s (SClaim len) = true ->
   sys_rep F pinv (fst (sys_step F m rv s (SClaim len)))
-          (spec_step g sp (event_of (fl_pub F (sy_pub s)) (SClaim len) (snd (sys_step F m rv s (SClaim len))))).
-Proof. intros [n off Fr pend k j D Hp Hg Hlr Hcr Hh Hlim Hwin Hcl] Henv.
+          (spec_step g sp (step_event F m rv s (SClaim len))).
+Proof. intros Hrep0 Henv. pose proof Hrep0 as [n off Fr pend k j D Hp Hg Hlr Hcr Hh Hlim Hwin Hcl].
   pose proof (tlen_facts _ Hg) as (T1 & T32 & Tmp & _ & Tmpl & Tg & Tm). pose proof Hg as (Hleg & Ht & Hm & Hs).
   destruct (fk_basic F pinv FK n off _ Hp) as (_ & Hn & Hcount & Hoff).
   pose proof (lr_off _ _ _ _ _ _ _ _ Hlr) as Hofft.
-  unfold env_ok in Henv. apply andb_prop in Henv as [Hlast Hok]. unfold plog in Hcount. fold (sys_log s) in Hcount.
-  rewrite Hcount in Hlast.
+  unfold env_ok in Henv. pose proof Henv as Hok. unfold plog in Hcount. fold (sys_log s) in Hcount.
   assert (Hlens : 0 <= len <= 1073741824 /\ sy_open s = false) by (unfold append_ok in Hok; lia).
   destruct Hlens as [Hlen Hopen].
   assert (Hpend : pend = None). { unfold claim_ok in Hcl. destruct pend; [|reflexivity]. destruct Hcl as [Ho _]. congruence. }
   subst pend.
-  pose proof (fk_claim F pinv FK m rv n off (sy_pub s) len Hp ltac:(lia) Hofft Hlen) as Heff.
+  assert (Hnopen : sp_open sp = None) by (apply (rep_open_iff s sp Hrep0); exact Hopen).
+  pose proof (pad_reported_same s sp Hrep0 Hnopen) as Hpadsame.
+  pose proof (fk_claim F pinv FK m rv n off (sy_pub s) len Hp Hofft Hlen) as Heff.
   destruct s as [p im asm op]. cbn [sy_pub sy_img sy_asm sy_open] in *. rewrite sys_log_mk in *. fold (plog p) in *.
-  cbn [sys_step pub_op sy_pub sy_img sy_asm sy_open]. destruct (fl_step F m rv p (Claim len)) as [p' r] eqn:Est.
-  cbn [fst snd event_of spec_step].
-  clear Hcount. inversion Heff as [e Hne | p2 req es cl Hlaid Hreq Hclosed Hlt Hfit Hsg Hl' Hpart Hoth Hclm Hcl2 Hp' | p2 req Hreq Hclosed Hlt Hfit Hsg Hl' Hpart Hoth Hclm Hcl2 Hp']; subst.
+  unfold step_event. cbn [sys_step pub_op sy_pub sy_img sy_asm sy_open]. destruct (fl_step F m rv p (Claim len)) as [p' r] eqn:Est.
+  cbn [fst snd event_of spec_step sy_pub].
+  clear Hcount. clear Hrep0. inversion Heff as [e Hne | p2 req es cl Hlaid Hreq Hclosed Hlt Hfit Hsg Hl' Hpart Hoth Hclm Hcl2 Hp' | p2 req Hreq Hlast Hclosed Hlt Hfit Hsg Hl' Hpart Hoth Hclm Hcl2 Hp' | p2 req Hreq Hlast Hclosed Hlt Hfit Hsg Hl' Hpart Hoth Hclm Hcl2 Hp']; subst.
   - (* refused *)
-    rewrite on_result_refuse by assumption. cbn [is_ok].
+    rewrite on_result_refuse by (try assumption; intros _; exact Hpadsame). cbn [is_ok].
     apply (SysRep F pinv _ sp n off Fr None k j D); cbn [sy_pub sy_img sy_asm sy_open]; rewrite ?sys_log_mk; auto.
   - (* accepted *)
     destruct Hlaid as (f & -> & -> & -> & Hfl & Hfty & Hffl & Hfses & Hflen).
@@ -566,7 +674,7 @@ Proof. intros [n off Fr pend k j D Hp Hg Hlr Hcr Hh Hlim Hwin Hcl] Henv.
     + eapply geom_ok_same; eassumption.
     + apply (log_rep_claim n0 off0 Hoff0 (plog p) (plog p') n off Fr k f Hlr); try congruence; try assumption; try lia.
     + eapply cursor_rep_view; [|exact Hcr]. congruence.
-    + pose proof (hist_claim g ses Fr n off k j asm sp D f len Hh Hfl) as HH.
+    + pose proof (hist_claim g ses Fr n off k j asm sp D f len (fl_position F m p') Hh Hfl) as HH.
       rewrite Tg in HH. rewrite Ht. exact HH.
     + rewrite Hl'. exact Hlim.
     + exact Hwin.
@@ -576,15 +684,14 @@ Proof. intros [n off Fr pend k j D Hp Hg Hlr Hcr Hh Hlim Hwin Hcl] Henv.
     cbn [on_result is_ok].
     assert (Hnext : part (plog p) ((n + 1) mod 3) = []).
     { apply (next_clean (mkSys (F := F) p im asm false) n off len Hp Hofft Hok Hclosed Hlt). }
-    apply (rep_trip p im asm false sp p' n off Fr k j D req); auto; lia. Qed.
+    apply (rep_trip p im asm false sp p' n off Fr k j D req); auto; lia.
+  - (* the very last term *)
+    cbn [on_result is_ok].
+    assert (Hnext : part (plog p) ((n + 1) mod 3) = []).
+    { apply (next_clean (mkSys (F := F) p im asm false) n off len Hp Hofft Hok Hclosed Hlt). }
+    apply (rep_last p im asm false sp p' n off Fr k j D req); auto; lia. Qed.
 
 (* ---- facts the oracle proof reads off the relation ---- *)
-Lemma rep_open_iff s sp : sys_rep F pinv s sp -> (sy_open s = false <-> sp_open sp = None).
-Proof. intros [n off Fr pend k j D Hp Hg Hlr Hcr Hh Hlim Hwin Hcl]. destruct Hh as [_ _ _ _ O _ _ _ _].
-  unfold claim_ok in Hcl. destruct pend as [f|], (sp_open sp) as [[len p]|]; try contradiction.
-  - destruct Hcl as [Ho _]. split; intros H; congruence.
-  - split; auto. Qed.
-
 Lemma rep_open_pos s sp len p : sys_rep F pinv s sp -> sp_open sp = Some (len, p) ->
   p = pos_after (sg_p0 g) (sp_stream sp) + align (32 + len) 32 /\ claimed_len (fl_pub F (sy_pub s)) = len /\ 0 <= len.
 Proof. intros [n off Fr pend k j D Hp Hg Hlr Hcr Hh Hlim Hwin Hcl] Hopen. destruct Hh as [_ _ _ E O _ _ _ _].
@@ -620,15 +727,6 @@ Proof. intros [n off Fr pend k j D Hp Hg Hlr Hcr Hh Hlim Hwin Hcl].
   rewrite Hopen in O. destruct pend as [f|]; [contradiction|]. cbn [pend_span] in E. rewrite Z.add_0_r in E. rewrite E, Tg.
   rewrite Z.add_mod, (mul_mod32 n T32), (off_al n0 off0 Hoff0al _ _ _ _ _ Hlr) by lia. reflexivity. Qed.
 
-Lemma rep_pubpos s sp : sys_rep F pinv s sp -> sp_open sp = None ->
-  fl_position F m (sy_pub s) = if ps_closed (fl_pub F (sy_pub s)) then Err Closed else Ok (pos_after (sg_p0 g) (sp_stream sp)).
-Proof. intros [n off Fr pend k j D Hp Hg Hlr Hcr Hh Hlim Hwin Hcl] Hopen.
-  pose proof (tlen_facts _ Hg) as (T1 & T32 & Tmp & _ & Tmpl & Tg & Tm). pose proof Hg as (Hleg & Ht & Hm & Hs).
-  destruct Hh as [_ _ _ E O _ _ _ _]. rewrite Hopen in O. destruct pend as [f|]; [contradiction|].
-  cbn [pend_span] in E. rewrite Z.add_0_r, Tg in E.
-  rewrite (fk_position F pinv FK m n off _ Hp) by (unfold plog; fold (sys_log s); apply (lr_off _ _ _ _ _ _ _ _ Hlr)).
-  unfold plog. fold (sys_log s). rewrite Ht, E. reflexivity. Qed.
-
 (* shape of the result of every operation but a poll *)
 Definition result_shape (o : sop) (r : outcome Z) : Prop :=
   match o with
@@ -641,13 +739,11 @@ Lemma step_shape s sp o : sys_rep F pinv s sp -> env_ok F m s o = true ->
   match o with SPoll _ => True | _ =>
     let '(s', (r, ds, ms)) := sys_step F m rv s o in
     ds = [] /\ ms = [] /\ sy_img s' = sy_img s /\ result_shape o r /\
-    (ps_closed (fl_pub F (sy_pub s')) = true -> match o with SClose => True | _ => ps_closed (fl_pub F (sy_pub s)) = true end) /\
-    match o with SOffer _ _ | SClaim _ => forall e, r = Err e -> refusal e = true -> sy_pub s' = sy_pub s | _ => True end
+    (ps_closed (fl_pub F (sy_pub s')) = true -> match o with SClose => True | _ => ps_closed (fl_pub F (sy_pub s)) = true end)
   end.
 Proof. intros Hrep Henv. pose proof Hrep as [n off Fr pend k j D Hp Hg Hlr Hcr Hh Hlim Hwin Hcl].
   pose proof Hg as (Hleg & Ht & Hm & Hs). pose proof (lr_off _ _ _ _ _ _ _ _ Hlr) as Hofft.
   destruct (fk_basic F pinv FK n off _ Hp) as (_ & Hn & Hcount & Hoff). unfold plog in Hcount. fold (sys_log s) in Hcount.
-  assert (Hlast : n < two31 - 1) by (unfold env_ok in Henv; lia).
   assert (Henvop : forall po, is_append po = false -> C04Proofs.op_ok (plog (sy_pub s)) po ->
             ps_closed (fst (env_step (fl_pub F (sy_pub s)) po)) = true -> match po with Close => True | _ => ps_closed (fl_pub F (sy_pub s)) = true end).
   { intros po _ _. destruct po; cbn [env_step fst]; auto; try (unfold pub_commit, claim_apply; destruct (ps_claim _) as [[[? ?] ?]|]; cbn [fst ps_closed]; auto;
@@ -655,22 +751,20 @@ Proof. intros Hrep Henv. pose proof Hrep as [n off Fr pend k j D Hp Hg Hlr Hcr H
   destruct o; try exact Logic.I.
   - (* offer *)
     assert (Hlen : 0 <= len <= 1073741824) by (unfold env_ok, append_ok in Henv; lia).
-    pose proof (fk_offer F pinv FK m rv n off (sy_pub s) (payload k0 len) Hp Hlast Hofft) as Heff.
+    pose proof (fk_offer F pinv FK m rv n off (sy_pub s) (payload k0 len) Hp Hofft) as Heff.
     rewrite (zlen_payload k0 len) in Heff by lia. specialize (Heff ltac:(lia)). unfold plog in Heff at 1. fold (sys_log s) in Heff.
     rewrite Hm in Heff. specialize (Heff Hmtu32).
     cbn [sys_step pub_op]. destruct (fl_step F m rv (sy_pub s) (Offer (payload k0 len))) as [p' r] eqn:Est.
     cbn [sy_img sy_pub]. repeat split; auto.
     + inversion Heff; subst; cbn [result_shape]; eauto.
     + inversion Heff; subst; intros Hc; congruence.
-    + intros e He Hr. subst r. inversion Heff; subst; try reflexivity; discriminate.
   - (* claim *)
     assert (Hlen : 0 <= len <= 1073741824) by (unfold env_ok, append_ok in Henv; lia).
-    pose proof (fk_claim F pinv FK m rv n off (sy_pub s) len Hp Hlast Hofft Hlen) as Heff.
+    pose proof (fk_claim F pinv FK m rv n off (sy_pub s) len Hp Hofft Hlen) as Heff.
     cbn [sys_step pub_op]. destruct (fl_step F m rv (sy_pub s) (Claim len)) as [p' r] eqn:Est.
     cbn [sy_img sy_pub]. repeat split; auto.
     + inversion Heff; subst; cbn [result_shape]; eauto.
     + inversion Heff; subst; intros Hc; congruence.
-    + intros e He Hr. subst r. inversion Heff; subst; try reflexivity; discriminate.
   - (* commit *)
     destruct (fk_env F pinv FK m rv n off (sy_pub s) (pub_op (fl_pub F (sy_pub s)) (SCommit k0)) Hp eq_refl Logic.I) as (E1 & E2 & _).
     cbn [sys_step]. destruct (fl_step F m rv (sy_pub s) _) as [p' r] eqn:Est. cbn [fst snd] in E1, E2. cbn [sy_img sy_pub].
@@ -692,10 +786,7 @@ Proof. intros Hrep Henv. pose proof Hrep as [n off Fr pend k j D Hp Hg Hlr Hcr H
     + rewrite E1. apply (Henvop Publication.Abort eq_refl Logic.I).
   - (* set limit *)
     assert (Hok : C04Proofs.op_ok (plog (sy_pub s)) (SetLimit v)).
-    { pose proof (tlen_facts _ Hg) as (T1 & _).
-      pose proof (pos_bounds _ _ _ _ _ _ _ _ Hlr Hcr Ht ltac:(lia)) as Hpb. pose proof (lr_klo _ _ _ _ _ _ _ _ Hlr) as [Hk1 Hk2].
-      unfold env_ok in Henv. rewrite Hcount, Ht in Henv. cbn [C04Proofs.op_ok]. unfold limit_ok, plog. fold (sys_log s). rewrite Ht.
-      assert (0 <= tlen / 2) by (apply Z.div_pos; lia). unfold two31 in *. nia. }
+    { unfold env_ok in Henv. cbn [C04Proofs.op_ok]. unfold limit_ok, plog. fold (sys_log s). lia. }
     destruct (fk_env F pinv FK m rv n off (sy_pub s) (SetLimit v) Hp eq_refl Hok) as (E1 & E2 & _).
     cbn [sys_step pub_op]. destruct (fl_step F m rv (sy_pub s) _) as [p' r] eqn:Est. cbn [fst snd] in E1, E2. cbn [sy_img sy_pub].
     repeat split; auto. rewrite E1. intros Hc. exact Hc.
@@ -711,16 +802,16 @@ Proof. intros Hrep Henv. pose proof Hrep as [n off Fr pend k j D Hp Hg Hlr Hcr H
     cbn [sys_step pub_op]. destruct (fl_step F m rv (sy_pub s) _) as [p' r] eqn:Est. cbn [fst snd] in E1, E2. cbn [sy_img sy_pub].
     repeat split; auto. Qed.
 
-Lemma poll_shape s sp limit : sys_rep F pinv s sp -> l_count (sys_log s) < two31 - 1 ->
+Lemma poll_shape s sp limit : sys_rep F pinv s sp ->
   let '(s', (r, ds, ms)) := sys_step F m rv s (SPoll limit) in
   r = Ok (Z.of_nat (length ds)) /\ Forall (fun x => fst x = ses) ms /\ im_pos (sy_img s) <= im_pos (sy_img s') /\
   sy_pub s' = sy_pub s /\ sy_open s' = sy_open s.
-Proof. intros [n off Fr pend k j D Hp Hg Hlr Hcr Hh Hlim Hwin Hcl] Hlast.
+Proof. intros [n off Fr pend k j D Hp Hg Hlr Hcr Hh Hlim Hwin Hcl].
   destruct (cursor_norm _ _ _ _ _ _ _ _ _ _ Hlr Hcr) as (k' & j' & Hk' & Hlr' & Hcr' & Hrest & Hnorm).
   pose proof Hg as (Hleg & Ht & Hm & Hs).
   destruct (fk_basic F pinv FK n off _ Hp) as (_ & Hn & Hcount & Hoff).
-  unfold plog in Hcount. fold (sys_log s) in Hcount. rewrite Hcount in Hlast.
-  destruct (poll_spec n0 off0 Hn0 Hoff0 _ _ _ _ _ _ _ _ limit Hlr' Hcr' Hlast Hnorm) as (j2 & ws & im' & Hpoll & Hj2 & Hcr2 & Hses & _).
+  unfold plog in Hcount. fold (sys_log s) in Hcount.
+  destruct (poll_spec n0 off0 Hn0 Hoff0 _ _ _ _ _ _ _ _ limit Hlr' Hcr' Hnorm) as (j2 & ws & im' & Hpoll & Hj2 & Hcr2 & Hses & _).
   cbv zeta in Hpoll. cbn [sys_step]. rewrite Hpoll.
   set (cons := firstn (j2 - j') (skipn j' (Fr k'))) in *.
   assert (Hcok : Forall (frame_ok ses) cons).
@@ -737,21 +828,16 @@ Proof. intros [n off Fr pend k j D Hp Hg Hlr Hcr Hh Hlim Hwin Hcl] Hlast.
 (* ---- every step ---- *)
 Theorem sys_step_rep s sp o :
   sys_rep F pinv s sp -> env_ok F m s o = true ->
-  sys_rep F pinv (fst (sys_step F m rv s o)) (spec_step g sp (event_of (fl_pub F (sy_pub s)) o (snd (sys_step F m rv s o)))).
+  sys_rep F pinv (fst (sys_step F m rv s o)) (spec_step g sp (step_event F m rv s o)).
 Proof. intros Hrep Henv. destruct o.
   - apply step_offer; assumption.
   - apply step_claim; assumption.
   - apply step_resolve; [assumption| |exact Logic.I]. unfold env_ok in Henv. lia.
   - apply step_resolve; [assumption| |exact Logic.I]. unfold env_ok in Henv. lia.
-  - apply step_poll; [assumption|]. unfold env_ok in Henv. lia.
+  - apply step_poll; assumption.
   - (* SetLimit *)
     apply step_meta; [assumption| |unfold env_ok in Henv; destruct Hrep as [n off Fr pend k j D Hp Hg _ _ _ _ _ _]; destruct Hg as (_ & Ht & _); rewrite Ht in Henv; lia].
-    destruct Hrep as [n off Fr pend k j D Hp Hg Hlr Hcr Hh Hlim Hwin Hcl].
-    pose proof (tlen_facts _ Hg) as (T1 & _). pose proof Hg as (Hleg & Ht & Hm & Hs).
-    destruct (fk_basic F pinv FK n off _ Hp) as (_ & Hn & Hcount & Hoff). unfold plog in Hcount. fold (sys_log s) in Hcount.
-    pose proof (pos_bounds _ _ _ _ _ _ _ _ Hlr Hcr Ht ltac:(lia)) as Hpb. pose proof (lr_klo _ _ _ _ _ _ _ _ Hlr) as [Hk1 Hk2].
-    unfold env_ok in Henv. rewrite Hcount, Ht in Henv. cbn [pub_op C04Proofs.op_ok]. unfold limit_ok. rewrite Ht.
-    assert (0 <= tlen / 2) by (apply Z.div_pos; lia). unfold two31 in *. nia.
+    unfold env_ok in Henv. cbn [pub_op C04Proofs.op_ok]. unfold limit_ok. lia.
   - apply step_clean; assumption.
   - apply step_meta; [assumption|exact Logic.I|exact Logic.I].
   - apply step_meta; [assumption|exact Logic.I|exact Logic.I]. Qed.
